@@ -387,6 +387,21 @@ func runC14(c *runCtx) {
 				extNames = append(extNames, name)
 			}
 		}
+		if h%16 == 5 {
+			// the same (name, extension) pair registered again under the same parent, with another accepting format
+			// registered in between: the newest registration goes in front of both
+			par := parents[r.Intn(len(parents))]
+			nm := func(k int) string { return fmt.Sprintf("application/x-verif-again-%d-%d", h, k) }
+			acc := predSpec{"always", nil, 0}
+			if r.Intn(2) == 0 {
+				acc = predSpec{"minlen", nil, 1}
+			}
+			ops = []c14op{{par, nm(0), ".ag", nil, acc}, {par, nm(1), ".ag1", nil, acc}, {par, nm(0), ".ag", nil, acc}}
+			if r.Intn(2) == 0 {
+				ops = append(ops, c14op{par, nm(2), ".ag2", nil, acc}, c14op{par, nm(1), ".ag1", []string{nm(1) + "-alias"}, acc})
+			}
+			extNames = nil
+		}
 		if h%8 == 4 {
 			// real registrations on a node, each followed by an Extend on a detection result that is a copy of that very
 			// node (the root for binary junk, text/plain for text): the copy shares nothing with the tree
